@@ -52,7 +52,7 @@ def leaf_markers(prog, names):
     f["ula_w"] = names.ctl("set_border_color")
     f["p7ffd"] = names.ctl("write_7ffd")
     f["kemp"] = prog.fn_path("rustzx_core", "KempstonJoy::read")
-    cb = [p for p in prog.fns if p.startswith("rustzx_core::<") and "ZXTape" in p and p.endswith("::current_bit")]
+    cb = [p for p in prog.fns if p.startswith("<rustzx_core::") and "ZXTape" in p and p.endswith("::current_bit")]
     if len(cb) != 1:
         raise KeyError("anchor: ZXTape::current_bit not unique: %s" % cb)
     f["ear"] = cb[0]
